@@ -101,6 +101,7 @@ fn gen_desc(r: &mut Rng) -> KeyDesc {
         4 | 5 => 3,
         6 => 3 + r.usize(5),
         7 => 8,
+        8 if r.chance(1, 2) => 21 + r.usize(12), // beyond the sizes at which sorts switch algorithm
         _ => r.usize(11),
     };
     let distinct = r.chance(1, 2);
@@ -182,7 +183,18 @@ fn run_relations(a: &Args) -> Report {
         while descs.len() < pool_size {
             let mut d = r.pick(&bases).clone();
             match r.below(6) {
-                0 => r.shuffle(&mut d.labels),
+                0 if d.labels.len() < 12 || r.chance(1, 3) => r.shuffle(&mut d.labels),
+                0 => {
+                    // permute, keeping labels that share a name in their relative order (such keys are equal)
+                    let orig = d.labels.clone();
+                    let mut shuffled = orig.clone();
+                    r.shuffle(&mut shuffled);
+                    let mut next_of: std::collections::HashMap<String, Vec<(String, String)>> = std::collections::HashMap::new();
+                    for l in orig.iter().rev() {
+                        next_of.entry(l.0.clone()).or_default().push(l.clone());
+                    }
+                    d.labels = shuffled.iter().map(|l| next_of.get_mut(&l.0).unwrap().pop().unwrap()).collect();
+                }
                 1 if !d.labels.is_empty() => {
                     let i = r.usize(d.labels.len());
                     d.labels[i].1 = r.pick(LVALS).to_string();
